@@ -1,5 +1,144 @@
 import Rivaas.Proto
-/- Driver for C15 (stub: not built yet) -/
-def main : IO UInt32 := do
-  IO.eprintln "driver for C15 is not built yet"
-  return 2
+import Rivaas.Model.CompressAsIs
+import Rivaas.Spec.Compress
+/-
+Driver for C15. Case line:
+  <id> <A|N> <minSize> <gzip> <br> <exclCT…> <exclPaths…> <exclExts…> <path> <accept-encoding> <recovery>
+       <nSniff> {<prefix> <type>}* <nOps> {op}*  =>  <obs without middleware> <obs with middleware>
+  op  ::= H <key> <n> <val>* | D <key> | W <code> | B <bytes> | F | C <n> <bytes>* | X
+  obs ::= P | E | R <status> <nh> {<key> <n> <val>*}* (0 | 1 <decoded body>) <nOuts> {<flag> <n> <err>}*
+  bytes ::= h:<hex> | z:<seg>.<seg>…   with seg ::= <hex> | <hexbyte>*<count>
+`A` selects the model of the code as shipped, `N` the model of the code as it is now.
+-/
+namespace Rivaas.DriverC15
+open Rivaas.Proto Rivaas.Http Rivaas.Compress Rivaas.CompressSpec
+
+def pSeg (s : String) : Option Bytes :=
+  match s.splitOn "*" with
+  | [h] => (unhexBytes h.toList).map bytesOfU8
+  | [h, n] =>
+    match unhexBytes h.toList, n.toNat? with
+    | some [b], some k => some (List.replicate k (Char.ofNat b.toNat))
+    | _, _ => none
+  | _ => none
+
+def pBytes : P Bytes := do
+  let t ← tok
+  if t.startsWith "h:" then
+    match unhexBytes (t.drop 2).toString.toList with
+    | some bs => pure (bytesOfU8 bs)
+    | none => failure
+  else if t.startsWith "z:" then
+    let segs := ((t.drop 2).toString.splitOn ".").map pSeg
+    if segs.all Option.isSome then pure (segs.filterMap id).flatten else failure
+  else failure
+
+def pOp : P Op := do
+  let k ← tok
+  if k == "H" then do let key ← str; let vs ← list str; pure (.setH key vs)
+  else if k == "D" then Op.delH <$> str
+  else if k == "W" then Op.writeHeader <$> nat
+  else if k == "B" then Op.write <$> pBytes
+  else if k == "F" then pure .flush
+  else if k == "C" then Op.copy <$> list pBytes
+  else if k == "X" then pure .panic
+  else failure
+
+def pErr : P Err := do
+  let n ← nat
+  pure (match n with | 0 => .ok | 1 => .bodyNotAllowed | 2 => .shortWrite | 3 => .invalidWrite | _ => .other)
+
+structure ObsR where
+  obs : Obs
+  outs : List OutObs
+
+/-- `none` = the exchange ended in a panic / torn-down connection -/
+def pObs : P (Option ObsR) := do
+  let k ← tok
+  if k == "P" || k == "E" then pure none
+  else if k == "R" then do
+    let st ← nat
+    let hs ← list (do let key ← str; let vs ← list str; pure (key, vs))
+    let dec ← opt pBytes
+    let outs ← list (do let f ← nat; let n ← nat; let e ← pErr; pure (⟨f, n, e⟩ : OutObs))
+    pure (some ⟨⟨st, hs, dec⟩, outs⟩)
+  else failure
+
+structure Case where
+  asis : Bool
+  cfg : Cfg
+  path : Bytes
+  ae : Bytes
+  recovery : Bool
+  sniffTab : List (Bytes × Bytes)
+  ops : List Op
+
+def pCase : P Case := do
+  let tag ← tok
+  let ms ← nat
+  let gz ← bool
+  let br ← bool
+  let ect ← list str
+  let ep ← list str
+  let ee ← list str
+  let path ← str
+  let ae ← str
+  let rc ← bool
+  let tab ← list (do let p ← pBytes; let t ← str; pure (p, t))
+  let ops ← list pOp
+  pure { asis := tag == "A", cfg := ⟨ms, gz, br, ect, ep, ee⟩, path := path, ae := ae, recovery := rc, sniffTab := tab, ops := ops }
+
+/-- http.DetectContentType as shipped by the harness (looked up on the first 512 bytes); an
+    argument the harness did not anticipate yields a marker that cannot equal a real type -/
+def sniffOf (tab : List (Bytes × Bytes)) : Sniff := fun b =>
+  match tab.find? (fun e => e.1 == b.take 512) with
+  | some e => e.2
+  | none => "?unshipped-sniff-argument".toList
+
+def outsMatch : List WOut → List OutObs → Bool
+  | [], [] => true
+  | m :: ms, o :: os =>
+    (match o.flag with
+      | 0 => true
+      | 1 => m.n == o.n && m.err == o.err
+      | _ => (m.err == .ok) == (o.err == .ok)) && outsMatch ms os
+  | _, _ => false
+
+def obsMatchesPlain (m : Base × List WOut) (o : Option ObsR) : Bool :=
+  match o with
+  | none => m.1.panicked
+  | some r => !m.1.panicked && m.1.resp.status == r.obs.status && heq m.1.resp.hdrs r.obs.hdrs &&
+      r.obs.decoded == some m.1.resp.body && outsMatch m.2 r.outs
+
+def obsMatchesWith (m : WithResp) (o : Option ObsR) : Bool :=
+  match o with
+  | none => m.panicked
+  | some r => !m.panicked && m.resp.status == r.obs.status && heq m.resp.hdrs r.obs.hdrs &&
+      r.obs.decoded == m.decoded && outsMatch m.outs r.outs
+
+def showWith (m : WithResp) : String :=
+  if m.panicked then "P" else
+  s!"R {m.resp.status} hdrs={m.resp.hdrs.map (fun kv => (String.ofList kv.1, kv.2.map String.ofList))} decoded={m.decoded.map (fun b => (encStr (b.take 48), b.length))} outs={m.outs.map (fun o => (o.n, repr o.err))}"
+
+def step (line : String) : String :=
+  match splitCase line with
+  | none => "? bad-line"
+  | some (id, inp, obs) =>
+    match runP pCase inp, runP (do let a ← pObs; let b ← pObs; pure (a, b)) obs with
+    | some c, some (op, ow) =>
+      let sn := sniffOf c.sniffTab
+      let mp := runPlain sn c.ops
+      let mw := runWithAsIs sn c.cfg c.path c.ae c.ops
+      let mi := obsMatchesPlain mp op && obsMatchesWith mw ow
+      -- the oracle, on what the implementation did
+      let s := match op, ow with
+        | some p, some w =>
+          transparentObs p.obs w.obs && encodingOK c.ae p.obs w.obs && writeContract (writeLens c.ops) w.outs
+        | none, _ => true      -- the program is outside the domain (it makes the bare writer panic)
+        | some _, none => false
+      verdict id mi s "-" (String.ofList ((showWith mw).toList.map (fun c => if c == ' ' then '_' else c)))
+    | _, _ => s!"{id} bad-case"
+
+end Rivaas.DriverC15
+
+def main : IO UInt32 := Rivaas.Proto.driverMain Rivaas.DriverC15.step
